@@ -349,7 +349,8 @@ def source_literals(limit=80):
                 seen.add(v)
                 res.append(v)
     # instantiated templates first (a placeholder scheme shows up as one), then the rest
-    res.sort(key=lambda v: 0 if any(ch.isdigit() for ch in v) else 1)
+    ordinary = set("abcdefghijklmnopqrstuvwxyzABCDEFGHIJKLMNOPQRSTUVWXYZ0123456789 /'_.-:,()")
+    res.sort(key=lambda v: (0 if any(ch not in ordinary for ch in v) else 1, 0 if any(ch.isdigit() for ch in v) else 1))
     return res[:limit]
 
 
